@@ -19,20 +19,6 @@ theorem get_run_appends {p : Path} (cs : List Bytes) :
     rw [ih _ _ _ h1]
     simp [List.append_assoc]
 
-theorem appends_avoid {p q : Path} (h : p ≠ q) (cs : List Bytes) :
-    ∀ e ∈ appends p cs, e.eff.avoids q := by
-  intro e he
-  obtain ⟨c, _, rfl⟩ := List.mem_map.1 he
-  exact h
-
-theorem wbPre_avoid (w : WBIn) : ∀ e ∈ wbPre w, e.eff.avoids (blockPath w.h) := by
-  intro e he
-  simp only [wbPre, List.mem_cons, List.not_mem_nil, or_false] at he
-  rcases he with rfl | rfl | rfl
-  · trivial
-  · exact tmpPath_ne_blockPath _ _
-  · trivial
-
 /-- all events avoid `p`: every crash prefix leaves `p` as it was -/
 theorem get_prefix_of_avoids {p : Path} {evs : List Ev} (h : ∀ e ∈ evs, e.eff.avoids p) (fs : FS) (k : Nat) :
     (run fs (evs.take k)).get p = fs.get p :=
@@ -54,50 +40,61 @@ theorem get_prefix_rename {p src : Path} {A : List Ev} (pt : Option Point)
     rw [List.take_of_length_le hk', run_append]
     simp [Step.apply, hsrc]
 
-/-- The temp file after mkdirAll, createTemp, the copy of all chunks, close and chtimes. -/
-theorem get_tmp_after_copy (fs : FS) (w : WBIn) :
-    (run fs (wbPre w ++ appends (tmpPath w.h w.sfx) w.chunks ++
-      [⟨wbPt 5, .nop⟩, ⟨wbPt 7, .chtimes (tmpPath w.h w.sfx) w.now⟩])).get (tmpPath w.h w.sfx)
-    = some ⟨w.chunks.flatten, w.now⟩ := by
-  rw [run_append, run_append]
-  have h0 : (run fs (wbPre w)).get (tmpPath w.h w.sfx) = some ⟨[], w.now⟩ := by
-    simp [wbPre, Step.apply]
-  have h1 := get_run_appends w.chunks _ _ _ h0
-  simp [Step.apply, h1]
+/-! ### the shape of a WriteBlock run -/
 
-theorem wb_crash_atomic (fs : FS) (w : WBIn) (k : Nat) :
-    (run fs ((writeBlockEvs w).1.take k)).get (blockPath w.h) = fs.get (blockPath w.h) ∨
-    ((run fs ((writeBlockEvs w).1.take k)).get (blockPath w.h) = some ⟨w.chunks.flatten, w.now⟩ ∧
-      w.rend = .eof ∧ w.fail = .none ∧ (writeBlockEvs w).2 = true ∧ (writeBlockEvs w).1.length ≤ k) := by
-  have hne := tmpPath_ne_blockPath w.h w.sfx
-  have hpre := wbPre_avoid w
-  have happ : ∀ cs, ∀ e ∈ appends (tmpPath w.h w.sfx) cs, e.eff.avoids (blockPath w.h) :=
-    fun cs => appends_avoid hne cs
-  -- all events of a failing run avoid the block path
-  have fail_case : ∀ evs : List Ev, (∀ e ∈ evs, e.eff.avoids (blockPath w.h)) →
-      (run fs (evs.take k)).get (blockPath w.h) = fs.get (blockPath w.h) :=
-    fun evs h => get_prefix_of_avoids h fs k
+theorem appends_local (p : Path) (cs : List Bytes) : ∀ e ∈ appends p cs, LocalAt p e.eff := by
+  intro e he
+  obtain ⟨c, _, rfl⟩ := List.mem_map.1 he
+  rfl
+
+theorem wbPre_local (w : WBIn) : ∀ e ∈ wbPre w, LocalAt (tmpPath w.h w.sfx) e.eff := by
+  intro e he
+  simp only [wbPre, List.mem_cons, List.not_mem_nil, or_false] at he
+  rcases he with rfl | rfl | rfl
+  · trivial
+  · rfl
+  · trivial
+
+theorem wbTail_local (w : WBIn) : ∀ e ∈ wbTail w, LocalAt (tmpPath w.h w.sfx) e.eff := by
+  intro e he
+  unfold wbTail at he
+  split at he <;> simp at he
+  · rcases he with rfl | rfl | rfl | rfl | rfl
+    · trivial
+    · rfl
+    · trivial
+    · trivial
+    · trivial
+  · rcases he with rfl | rfl | rfl
+    · trivial
+    · rfl
+    · trivial
+
+/-- everything before the rename of a successful run -/
+def wbBody (w : WBIn) : List Ev := wbPre w ++ appends (tmpPath w.h w.sfx) w.chunks ++ wbTail w
+
+theorem wbBody_local (w : WBIn) : ∀ e ∈ wbBody w, LocalAt (tmpPath w.h w.sfx) e.eff := by
+  intro e he
+  simp only [wbBody, List.mem_append] at he
+  rcases he with (he | he) | he
+  · exact wbPre_local w e he
+  · exact appends_local _ _ e he
+  · exact wbTail_local w e he
+
+/-- A `WriteBlock` run either fails, and then every event is local to its temp file, or returns nil,
+and then it is: local events, then the rename onto the block path. -/
+theorem wb_shape (w : WBIn) :
+    ((writeBlockEvs w).2 = false ∧ ∀ e ∈ (writeBlockEvs w).1, LocalAt (tmpPath w.h w.sfx) e.eff) ∨
+    ((writeBlockEvs w).2 = true ∧ w.rend = .eof ∧ w.fail = .none ∧
+      (writeBlockEvs w).1 = wbBody w ++ [⟨wbPt 13, .rename (tmpPath w.h w.sfx) (blockPath w.h)⟩]) := by
+  have hpre := wbPre_local w
+  have happ := appends_local (tmpPath w.h w.sfx)
+  have htail := wbTail_local w
   cases hf : w.fail <;> cases hr : w.rend <;> simp only [writeBlockEvs, hf, hr]
-  case none.eof =>
-    have := get_prefix_rename (p := blockPath w.h) (src := tmpPath w.h w.sfx)
-      (A := wbPre w ++ appends (tmpPath w.h w.sfx) w.chunks ++
-        [⟨wbPt 5, .nop⟩, ⟨wbPt 7, .chtimes (tmpPath w.h w.sfx) w.now⟩]) (wbPt 9)
-      (by
-        intro e he
-        simp only [List.mem_append, List.mem_cons, List.not_mem_nil, or_false] at he
-        rcases he with (he | he) | rfl | rfl
-        · exact hpre e he
-        · exact happ _ e he
-        · trivial
-        · exact hne)
-      fs (get_tmp_after_copy fs w) k
-    simp only [List.append_assoc, List.cons_append, List.nil_append] at this ⊢
-    rcases this with h | ⟨h1, h2⟩
-    · exact Or.inl h
-    · exact Or.inr ⟨h1, trivial, trivial, trivial, h2⟩
+  case none.eof => right; exact ⟨by first | rfl | trivial, by first | rfl | trivial, by first | rfl | trivial, by simp [wbBody]⟩
   all_goals
     left
-    apply fail_case
+    refine ⟨by first | rfl | trivial, ?_⟩
     intro e he
     simp only [List.mem_append, List.mem_cons, List.not_mem_nil, or_false] at he
     first
@@ -107,25 +104,58 @@ theorem wb_crash_atomic (fs : FS) (w : WBIn) (k : Nat) :
          · exact hpre e he
          · exact happ _ e he
          · trivial
-         · exact hne)
+         · rfl)
       | (rcases he with (he | he) | rfl | rfl | rfl
          · exact hpre e he
          · exact happ _ e he
          · trivial
          · trivial
-         · exact hne)
-      | (rcases he with (he | he) | rfl | rfl | rfl | rfl
-         · exact hpre e he
-         · exact happ _ e he
-         · trivial
-         · exact hne
-         · trivial
-         · exact hne)
+         · rfl)
       | (rcases he with (he | he) | rfl | rfl | rfl
          · exact hpre e he
          · exact happ _ e he
-         · exact hne
+         · rfl
          · trivial
-         · exact hne)
+         · rfl)
+      | (rcases he with (he | he) | rfl | rfl | rfl | rfl | rfl
+         · exact hpre e he
+         · exact happ _ e he
+         · trivial
+         · rfl
+         · trivial
+         · trivial
+         · rfl)
+      | (rcases he with ((he | he) | he) | rfl | rfl
+         · exact hpre e he
+         · exact happ _ e he
+         · exact htail e he
+         · trivial
+         · rfl)
+
+/-- The temp file after mkdirAll, createTemp, the copy of all chunks, close, chtimes (and the flock
+of the old copy). -/
+theorem get_tmp_after_body (fs : FS) (w : WBIn) :
+    (run fs (wbBody w)).get (tmpPath w.h w.sfx) = some ⟨w.chunks.flatten, w.now⟩ := by
+  unfold wbBody
+  rw [run_append, run_append]
+  have h0 : (run fs (wbPre w)).get (tmpPath w.h w.sfx) = some ⟨[], w.now⟩ := by
+    simp [wbPre, Step.apply]
+  have h1 := get_run_appends w.chunks _ _ _ h0
+  unfold wbTail
+  split <;> simp [Step.apply, h1]
+
+theorem wb_crash_atomic (fs : FS) (w : WBIn) (k : Nat) :
+    (run fs ((writeBlockEvs w).1.take k)).get (blockPath w.h) = fs.get (blockPath w.h) ∨
+    ((run fs ((writeBlockEvs w).1.take k)).get (blockPath w.h) = some ⟨w.chunks.flatten, w.now⟩ ∧
+      w.rend = .eof ∧ w.fail = .none ∧ (writeBlockEvs w).2 = true ∧ (writeBlockEvs w).1.length ≤ k) := by
+  have hne := tmpPath_ne_blockPath w.h w.sfx
+  rcases wb_shape w with ⟨_, hl⟩ | ⟨h2, hr, hf, he⟩
+  · left
+    exact get_prefix_of_avoids (fun e he => local_avoids hne (hl e he)) fs k
+  · rw [he]
+    rcases get_prefix_rename (wbPt 13) (fun e he => local_avoids hne (wbBody_local w e he)) fs
+        (get_tmp_after_body fs w) k with h | ⟨h1, h3⟩
+    · exact Or.inl h
+    · exact Or.inr ⟨h1, hr, hf, h2, h3⟩
 
 end ArvVerif.C02
